@@ -23,6 +23,11 @@ pub struct Case {
     /// encoding of the character - text that stays valid UTF-8 and so reaches `str::parse` / `from_str`
     #[serde(default)]
     pub chars: Vec<(usize, u32)>,
+    /// (start, byte, length): before the single substitutions, `length` consecutive bytes from `start` (modulo the
+    /// length of the text) are set to `byte` - runs of one (valid or invalid) byte with their ends on and around
+    /// the 16 / 32-byte block boundaries (homopolymers, masked and soft-masked regions, gaps)
+    #[serde(default)]
+    pub fill: Vec<(usize, u8, usize)>,
 }
 
 pub struct Bytes;
@@ -175,6 +180,15 @@ fn text_of_case(case: &Case) -> Vec<u8> {
     let idx = case.base.expand(case.abc.k());
     let mut text = text_of(case.abc, &idx);
     if !text.is_empty() {
+        for &(start, b, len) in &case.fill {
+            let n = text.len();
+            let start = start % n;
+            for x in text[start..(start + len).min(n)].iter_mut() {
+                *x = b;
+            }
+        }
+    }
+    if !text.is_empty() {
         for &(p, b) in &case.inject {
             let n = text.len();
             text[p % n] = b;
@@ -200,7 +214,7 @@ impl Sub for Bytes {
         "bytes"
     }
     fn rule(&self) -> &'static str {
-        "valid text (both alphabets, lengths 0..200 quick / ..5000 thorough, biased to multiples of 16 +-3, plus texts around 1..4 x 4096 bytes) with 0-2 injected bytes from all 256 values (lower case, other alphabet's letters, NUL, >=0x80, punctuation) and, in a fifth of the cases, 1-2 whole non-ASCII characters (any scalar value; biased to code points whose low byte is a letter of the alphabet) so that the text stays valid UTF-8 and reaches from_str, at positions relative to the 16/32-byte blocks and the scalar tail; encode / encode_raw / encode_into (into a reused destination holding a wrong symbol at every position, a whole vector and a sub-slice at offset 1..15 of a larger buffer) on generic, sse2, avx2 and the dispatcher forced to each arm, EncodedSequence::encode, from_str, Display compared with the model (ok iff all bytes in the alphabet; first offending byte reported); sweep = every length n <= 40 (quick) / 100 (thorough) x every position x every byte value, plus every two-byte character and every basic-plane character whose low byte is a letter inside a 5- and a 45-byte text, plus texts of 8192..16389 (thorough: ..32785 and 2 MiB) bytes with an invalid byte at each of the 68 positions around every multiple of 4096, alone and followed by a second one; non-trivial = n > 32 (vector path taken)"
+        "valid text (both alphabets, lengths 0..200 quick / ..5000 thorough, biased to multiples of 16 +-3, plus texts around 1..4 x 4096 bytes) with 0-2 injected bytes from all 256 values (lower case, other alphabet's letters, NUL, >=0x80, punctuation) and, in a fifth of the cases, 1-2 whole non-ASCII characters (any scalar value; biased to code points whose low byte is a letter of the alphabet) so that the text stays valid UTF-8 and reaches from_str, at positions relative to the 16/32-byte blocks and the scalar tail, and in two fifths of the cases 1-4 runs of one valid or invalid byte whose starts and lengths sit on and around multiples of 16; encode / encode_raw / encode_into (into a reused destination holding a wrong symbol at every position, a whole vector and a sub-slice at offset 1..15 of a larger buffer) on generic, sse2, avx2 and the dispatcher forced to each arm, EncodedSequence::encode, from_str, Display compared with the model (ok iff all bytes in the alphabet; first offending byte reported); sweep = every length n <= 40 (quick) / 100 (thorough) x every position x every byte value, plus every two-byte character and every basic-plane character whose low byte is a letter inside a 5- and a 45-byte text, plus texts of 8192..16389 (thorough: ..32785 and 2 MiB) bytes with an invalid byte at each of the 68 positions around every multiple of 4096, alone and followed by a second one; non-trivial = n > 32 (vector path taken)"
     }
     fn cases(&self, tier: Tier) -> u64 {
         tier.pick(150_000, 4_000_000)
@@ -231,16 +245,20 @@ impl Sub for Bytes {
                     1 => (1u32..=0x10, 0u32..=0xff, proptest::sample::select(abc.letters().to_vec())).prop_map(|(pl, hi, lo)| (pl << 16) | (hi << 8) | lo as u32),
                 ];
                 let chars = prop_oneof![4 => Just(Vec::new()), 1 => proptest::collection::vec((pos_strategy(), cp), 1..=2)];
-                (Just(abc), Just(base), Just(inject), chars)
+                // runs of one byte: starts and lengths on and around multiples of 16
+                let edge = (0usize..=12, prop_oneof![3 => Just(0usize), 1 => Just(1usize), 1 => Just(15usize), 1 => Just(17usize)]).prop_map(|(k, o)| k * 16 + o);
+                let run_len = prop_oneof![3 => (1usize..=6).prop_map(|k| k * 16), 2 => (1usize..=6, 0usize..=2, 0usize..=2).prop_map(|(k, a, b)| (k * 16 + a).saturating_sub(b)), 1 => 1usize..=40];
+                let fill = prop_oneof![3 => Just(Vec::new()), 2 => proptest::collection::vec((edge, byte_strategy(abc), run_len), 1..=4)];
+                (Just(abc), Just(base), Just(inject), chars, fill)
             })
-            .prop_map(|(abc, base, mut inject, chars)| {
+            .prop_map(|(abc, base, mut inject, chars, fill)| {
                 if !chars.is_empty() {
                     // keep the text valid UTF-8: single injected bytes stay within ASCII
                     for x in inject.iter_mut() {
                         x.1 &= 0x7f;
                     }
                 }
-                Case { abc, base, inject, chars }
+                Case { abc, base, inject, chars, fill }
             })
             .boxed()
     }
@@ -251,7 +269,7 @@ impl Sub for Bytes {
             for n in 1..=max {
                 for p in 0..n {
                     for b in 0..=255u8 {
-                        out.push(Case { abc, base: SeqSpec::Seeded { len: n, seed: n as u64, wild_pct: 5 }, inject: vec![(p, b)], chars: Vec::new() });
+                        out.push(Case { abc, base: SeqSpec::Seeded { len: n, seed: n as u64, wild_pct: 5 }, inject: vec![(p, b)], chars: Vec::new(), fill: Vec::new() });
                     }
                 }
             }
@@ -268,9 +286,9 @@ impl Sub for Bytes {
                             continue;
                         }
                         for b in [b'x', 0xffu8] {
-                            out.push(Case { abc, base: SeqSpec::Seeded { len: n, seed: (n + k) as u64, wild_pct: 2 }, inject: vec![(p, b)], chars: Vec::new() });
+                            out.push(Case { abc, base: SeqSpec::Seeded { len: n, seed: (n + k) as u64, wild_pct: 2 }, inject: vec![(p, b)], chars: Vec::new(), fill: Vec::new() });
                         }
-                        out.push(Case { abc, base: SeqSpec::Seeded { len: n, seed: (n + k) as u64, wild_pct: 2 }, inject: vec![(n - 1, b'y'), (p, b'x')], chars: Vec::new() });
+                        out.push(Case { abc, base: SeqSpec::Seeded { len: n, seed: (n + k) as u64, wild_pct: 2 }, inject: vec![(n - 1, b'y'), (p, b'x')], chars: Vec::new(), fill: Vec::new() });
                     }
                 }
             }
@@ -282,7 +300,7 @@ impl Sub for Bytes {
             for cp in 0x80u32..=0xffff {
                 if cp < 0x800 || letters.contains(&((cp & 0xff) as u8)) {
                     for (n, p) in [(5usize, 2usize), (45, 37)] {
-                        out.push(Case { abc, base: SeqSpec::Seeded { len: n, seed: cp as u64, wild_pct: 5 }, inject: Vec::new(), chars: vec![(p, cp)] });
+                        out.push(Case { abc, base: SeqSpec::Seeded { len: n, seed: cp as u64, wild_pct: 5 }, inject: Vec::new(), chars: vec![(p, cp)], fill: Vec::new() });
                     }
                 }
             }
@@ -291,7 +309,7 @@ impl Sub for Bytes {
             // 65536 vectors of 32 bytes: a 16-bit vector counter
             let n = (1usize << 21) + 70;
             for p in [(1usize << 21) - 1, (1usize << 21) - 33, (1usize << 21) + 1, (1usize << 20) - 1] {
-                out.push(Case { abc: Abc::Dna, base: SeqSpec::Seeded { len: n, seed: 21, wild_pct: 2 }, inject: vec![(p, b'x')], chars: Vec::new() });
+                out.push(Case { abc: Abc::Dna, base: SeqSpec::Seeded { len: n, seed: 21, wild_pct: 2 }, inject: vec![(p, b'x')], chars: Vec::new(), fill: Vec::new() });
             }
         }
         out
@@ -308,6 +326,8 @@ impl Sub for Bytes {
         info.class_if(bad.is_empty(), "valid");
         info.class_if(bad.len() >= 2, "two-invalid-bytes");
         info.class_if(n >= 4096, "text>=4096-bytes");
+        info.class_if((0..n / 16).any(|k| { let h = &text[k * 16..k * 16 + 16]; h.iter().all(|&b| b == h[0]) }), "a-16-byte-block-of-one-byte");
+        info.class_if((0..n / 32).any(|k| { let (a, b) = (&text[k * 32..k * 32 + 16], &text[k * 32 + 16..k * 32 + 32]); a.iter().all(|&x| x == a[0]) && b.iter().all(|&x| x == b[0]) && a[0] != b[0] }), "a-32-byte-block-of-two-uniform-halves");
         info.class_if(text.iter().any(|&b| b >= 0x80) && std::str::from_utf8(&text).is_ok(), "valid-utf8-with-non-ascii-character(str-routes-run)");
         info.class_if(bad.first().map_or(false, |&p| p >= 4000 && (p % 4096 >= 4096 - 64)), "first-invalid-byte-in-last-64-before-a-4096-multiple");
         if let Some(&p) = bad.first() {
